@@ -6,9 +6,9 @@ spec/Trace_Bytes.tla (conformance).  Binding = fault enumeration on the real cod
 counts; the frame layout comes from the independent decoder, the observation from the real reader; TLC
 evaluates the contract (verdict) and the as-built reader model (drift) on every case.
 """
-import gzip, io, json, os, zlib
+import gzip, io, json, os, signal, zlib
 
-from vf import check, common, gen, observe, refcodec as rc, tlc
+from vf import check, codecdrv as cd, common, gen, observe, refcodec as rc, tlc
 
 PROP = "C04"
 
@@ -19,7 +19,8 @@ class Fault(Exception):
 
 class FaultyFile(io.RawIOBase):
     """File object whose write call number `fail_at` (0-based) stores only `partial` bytes and then raises
-    (mode 'raise') or returns the short count (mode 'short'; the history stops there)."""
+    (mode 'raise') or returns the short count (mode 'short'; the history stops there).  Mode 'transient': that one
+    call raises with nothing written and every later call works again (the application carries on)."""
 
     def __init__(self, fail_at=None, partial=0, mode="raise"):
         self.data = bytearray()
@@ -35,6 +36,9 @@ class FaultyFile(io.RawIOBase):
         i = len(self.calls)
         if self.tripped:
             return len(b)  # the process is gone after the short write: nothing else reaches the disk
+        if self.fail_at is not None and i == self.fail_at and self.mode == "transient":
+            self.calls.append(len(b))
+            raise Fault("injected transient write failure")
         if self.fail_at is not None and i == self.fail_at:
             j = min(self.partial if self.partial >= 0 else len(b) + self.partial, max(len(b) - 1, 0))
             self.data += b[:j]
@@ -51,11 +55,55 @@ class FaultyFile(io.RawIOBase):
         pass
 
 
-def layout_of(data):
-    lay = []
-    for (off, n, body), d in zip(rc.frames(data), rc.decode_stream(data)):
-        lay.append({"k": d[0] if d[0] in ("HDR", "DESC") else "REC", "len": n})
+def _idents(node, acc):
+    """identifiers (name, hash) a REC / GRP node carries, recursively"""
+    if isinstance(node, tuple) and len(node) == 3 and node[0] == "GRP":
+        for m in node[2]:
+            _idents(m, acc)
+    elif isinstance(node, tuple) and len(node) == 3 and node[0] == "REC":
+        i = node[1]
+        acc.append((str(i[0]), i[1]) if isinstance(i, tuple) and len(i) == 2 else ("?", str(i)))
+        for v in node[2]:
+            _idents(v, acc)
+    elif isinstance(node, tuple):
+        for v in node:
+            _idents(v, acc)
+    return acc
+
+
+def layout_of(data, lost_at=None, lost=None):
+    """frame layout of a stream as the independent decoder sees it: kind, body size, and the descriptor ids a frame
+    defines (DESC) or needs (REC).  ids number the distinct (name, fields) definitions in order of appearance; a REC's
+    identifier resolves to the latest definition the WRITER began under it.  `lost` = (decoded node, body size) of a
+    frame that never reached the disk, to be placed at index `lost_at`."""
+    items = [(d, n, False) for (off, n, body), d in zip(rc.frames(data), rc.decode_stream(data))]
+    if lost is not None:
+        items.insert(lost_at, (lost[0], lost[1], True))
+    lay, dids, intent = [], {}, {}
+    for d, n, islost in items:
+        if d[0] == "HDR":
+            lay.append({"k": "HDR", "len": n, "ids": [], "lost": islost})
+        elif d[0] == "DESC":
+            key = (d[1], tuple(d[2]))
+            did = dids.setdefault(key, len(dids) + 1)
+            intent[(d[1], rc.descriptor_hash(d[1], d[2]))] = did
+            lay.append({"k": "DESC", "len": n, "ids": [did], "lost": islost})
+        else:
+            ids = sorted({intent.get(i, 0) for i in _idents(d, [])})
+            lay.append({"k": "REC", "len": n, "ids": ids, "lost": islost})
     return lay
+
+
+class Hang(BaseException):
+    pass
+
+
+HANGS = [0]          # reads that neither ended nor raised; after a few the enumeration stops (each costs the full timeout)
+MAX_HANGS = 3
+
+
+def _alarm(sig, frm):
+    raise Hang()
 
 
 def read_disk(blob, via="fileobj", tmp=None, ext=".records"):
@@ -63,6 +111,8 @@ def read_disk(blob, via="fileobj", tmp=None, ext=".records"):
     from flow.record import RecordReader, RecordStreamReader
 
     out, how, exc = [], "end", None
+    signal.signal(signal.SIGALRM, _alarm)
+    signal.setitimer(signal.ITIMER_REAL, 20.0 if not HANGS[0] else 3.0)      # a reader that neither ends nor raises is observed as "hang"
     try:
         if via == "fileobj":
             it = RecordReader(fileobj=io.BytesIO(blob))
@@ -75,10 +125,15 @@ def read_disk(blob, via="fileobj", tmp=None, ext=".records"):
             it = RecordReader(p)
         for r in it:
             out.append(r)
+    except Hang:
+        how, exc = "hang", "no end and no exception within 20 s"
+        HANGS[0] += 1
     except BaseException as e:  # noqa
         if isinstance(e, (KeyboardInterrupt, SystemExit)):
             raise
         how, exc = "raise", type(e).__name__
+    finally:
+        signal.setitimer(signal.ITIMER_REAL, 0)
     return out, how, exc
 
 
@@ -86,7 +141,7 @@ def identical(out, obs_written):
     if len(out) > len(obs_written):
         return False
     try:
-        return all(json.dumps(observe.obs_record(a), sort_keys=True) == b for a, b in zip(out, obs_written))
+        return all(cd.obs_key(a) == b for a, b in zip(out, obs_written))
     except Exception:
         return False
 
@@ -98,22 +153,25 @@ def run(tier):
     thorough = tier == "thorough"
     ctx.design("StreamBytes", "MC_StreamBytes.cfg", "exhaustive: <=4 frames after the header x body sizes {1,2} x every failing call x every partial count", actions=("Begin", "Body"), workers=4)
     if thorough:
-        for d, must in (("BoundaryRaises", True), ("TolerantBody", True), ("SkipAfterDesc", True)):
+        for d, must in (("BoundaryRaises", True), ("TolerantBody", True), ("SkipAfterDesc", True), ("LostDescTolerated", True)):
             ctx.sensitivity("StreamBytes", f"MC_StreamBytes_dev_{d}.cfg", f"deviation {d} must violate IntactPrefix", "IntactPrefix", workers=4)
         r = ctx.tlc("StreamBytes", "MC_StreamBytes_dev_ShortLenRaises.cfg", "negative control: raising instead of ending inside a length prefix is NOT a violation", workers=4)
         if r.violations:
             raise common.MachineryError("negative control ShortLenRaises violated the contract: the contract is too strict")
-    streams = gen.sample_streams(ctx.rnd, 10 if not thorough else 60, (3, 7) if not thorough else (3, 12))
+    streams = gen.fixed_streams() + gen.sample_streams(ctx.rnd, 10 if not thorough else 60, (3, 7) if not thorough else (3, 12))
     cases, meta = [], []
     tmp = common.scratch("c04files")
     for si, recs in enumerate(streams):
+        if HANGS[0] >= MAX_HANGS:
+            ctx.note(f"enumeration stopped after {HANGS[0]} reads that neither ended nor raised")
+            break
         buf = io.BytesIO()
         w = RecordStreamWriter(buf)
         for r in recs:
             w.write(r)
         data = buf.getvalue()
         w.fp = None
-        written = [json.dumps(observe.obs_record(r), sort_keys=True) for r in recs]
+        written = [cd.obs_key(r) for r in recs]
         try:
             lay = layout_of(data)
         except Exception as e:
@@ -123,6 +181,8 @@ def run(tier):
             ctx.sample({"stream": si, "layout": lay, "bytes": len(data), "records": len(recs)})
         # (a) every byte offset of the raw stream
         for cut in range(0, len(data) + 1):
+            if HANGS[0] >= MAX_HANGS:
+                break
             vias = ["fileobj", "lowlevel"] + (["path"] if thorough or cut % 5 == si % 5 else [])
             for via in vias:
                 out, how, exc = read_disk(data[:cut], via, tmp)
@@ -167,8 +227,35 @@ def run(tier):
                     cases.append({"layout": lay, "cut": len(disk), "pin_boundary": True, "calls": ff.calls,
                                   "obs": {"yielded": len(out), "identical": identical(out, written) and data.startswith(disk), "how": how}})
                     meta.append({"kind": "fault:" + mode, "stream": si, "call": k, "partial": partial, "disk": len(disk), "exc": exc})
-        for m in meta[-3:]:
-            pass
+        # (d) a transient failure: one fp.write(length) call raises with nothing written and the application carries
+        #     on with the next record -- the frame is absent, the stream stays well formed
+        colliding = len({(f["k"], tuple(f["ids"])) for f in lay if f["k"] == "DESC"}) != len(
+            {rc.descriptor_hash(d[1], d[2]) for d in rc.decode_stream(data) if d[0] == "DESC"})
+        refnodes = rc.decode_stream(data)
+        for k in ([] if colliding else range(0, ncalls, 2)):
+            ff = FaultyFile(k, 0, "transient")
+            w = RecordStreamWriter(ff)
+            okw = []
+            for r in recs:
+                try:
+                    w.write(r)
+                    okw.append(cd.obs_key(r))
+                except Fault:
+                    pass
+                except Exception as e:
+                    ctx.violation({"check": "writer-fault-handling", "exc": type(e).__name__}, {"stream": si, "call": k, "mode": "transient"})
+            w.fp = None
+            disk = bytes(ff.data)
+            try:
+                tlay = layout_of(disk, k // 2, (refnodes[k // 2], lay[k // 2]["len"]))
+            except Exception as e:
+                ctx.violation({"check": "transient-layout", "stream": si, "call": k}, {"error": repr(e)})
+                continue
+            for via in ("fileobj", "lowlevel"):
+                out, how, exc = read_disk(disk, via)
+                cases.append({"layout": tlay, "cut": len(disk), "pin_boundary": True, "calls": ff.calls,
+                              "obs": {"yielded": len(out), "identical": identical(out, okw), "how": how}})
+                meta.append({"kind": "transient:" + via, "stream": si, "call": k, "lost": tlay[k // 2]["k"], "disk": len(disk), "exc": exc})
     for c, m in zip(cases, meta):
         ctx.case((m["stream"], m["kind"].split(":")[0], m.get("cut", m.get("call")), m.get("partial")))
     # TLC evaluates contract and design on every case (chunks of <= 15 MB of JSON)
@@ -202,7 +289,7 @@ def run(tier):
         ctx.count(len(chunk), len(chunk))
     for i, c in enumerate(cases):
         chunk.append(c)
-        size += 60 + 22 * len(c["layout"]) + 4 * len(c["calls"])
+        size += 60 + 50 * len(c["layout"]) + 4 * len(c["calls"])
         if size > 12_000_000:
             flush(chunk, start)
             chunk, start, size = [], i + 1, 0
@@ -211,6 +298,9 @@ def run(tier):
     ctx.level = "model_checking"
     ctx.extra["rule"] = "one case per (stream, byte offset) for raw streams, per compressed offset for gzip, per (failing fp.write index, partial count, raise|short); distinct = distinct (stream, fault) pairs"
     ctx.extra["fault_kinds"] = sorted({m["kind"] for m in meta})
-    ctx.assumptions += ["faults are single: one cut or one failing call per history", "a short write is followed by no further writes (otherwise 'frames completely written' is undefined)",
+    import collections
+    ctx.extra["transient_outcomes"] = {f"{k[0]}/{k[1]}": n for k, n in sorted(collections.Counter((m["lost"], c["obs"]["how"]) for c, m in zip(cases, meta) if m["kind"].startswith("transient")).items())}
+    ctx.assumptions += ["faults are single: one cut or one failing call per history", "a transient failure (the application carries on) is a failing LENGTH call with nothing written: the frame is absent; failing body calls leave a misaligned stream about which the property says nothing",
+                        "transient failures are not combined with descriptor pairs whose identifiers coincide (C03's recorded finding)", "a short write is followed by no further writes (otherwise 'frames completely written' is undefined)",
                         "for gzip the bytes 'on disk' are the plain prefix recovered by an independent streaming zlib decoder"]
     return ctx.finish()
